@@ -230,6 +230,8 @@ func (eval Evaluator) Add(op0 *rlwe.Ciphertext, op1 rlwe.Operand, opOut *rlwe.Ci
 			}
 		}
 
+		*opOut.MetaData = *op0.MetaData
+
 	case uint64:
 		return eval.Add(op0, new(big.Int).SetUint64(op1), opOut)
 	case int64:
@@ -506,6 +508,8 @@ func (eval Evaluator) Mul(op0 *rlwe.Ciphertext, op1 rlwe.Operand, opOut *rlwe.Ci
 		for i := 0; i < op0.Degree()+1; i++ {
 			ringQ.MulScalarBigint(op0.Value[i], op1, opOut.Value[i])
 		}
+
+		*opOut.MetaData = *op0.MetaData
 
 	case uint64:
 		return eval.Mul(op0, new(big.Int).SetUint64(op1), opOut)
